@@ -47,6 +47,15 @@ impl StatusCode {
 //@ extract wtransport-proto/src/ids.rs >> impl StatusCode >> fn into_inner
 //@ ensures r == self.0
 //@ end
+
+//@ extract wtransport-proto/src/ids.rs >> impl StatusCode >> const OK
+//@ end
+//@ extract wtransport-proto/src/ids.rs >> impl StatusCode >> const FORBIDDEN
+//@ end
+//@ extract wtransport-proto/src/ids.rs >> impl StatusCode >> const NOT_FOUND
+//@ end
+//@ extract wtransport-proto/src/ids.rs >> impl StatusCode >> const TOO_MANY_REQUESTS
+//@ end
 }
 
 // whether a string is an acceptable status, and its value: abstract here (decided by Kani on the
@@ -118,6 +127,20 @@ impl SessionResponse {
     }
 
     uninterp spec fn status(&self) -> u16;
+
+// the canned answers: accept = 200, refusals = 403 / 404 / 429 (RFC 9110 registry; never 2xx)
+//@ extract wtransport-proto/src/session.rs >> impl SessionResponse >> fn ok
+//@ ensures r.status() == 200
+//@ end
+//@ extract wtransport-proto/src/session.rs >> impl SessionResponse >> fn forbidden
+//@ ensures r.status() == 403
+//@ end
+//@ extract wtransport-proto/src/session.rs >> impl SessionResponse >> fn not_found
+//@ ensures r.status() == 404
+//@ end
+//@ extract wtransport-proto/src/session.rs >> impl SessionResponse >> fn too_many_requests
+//@ ensures r.status() == 429
+//@ end
 
 //@ extract wtransport-proto/src/session.rs >> impl TryFrom<Headers> for SessionResponse >> fn try_from
 //@ subst `Self::Error` => `HeadersParseError`
